@@ -155,3 +155,27 @@ MUTANTS += [
     dict(name="c04_feature_space_Y_for_Yhat", prop=["C04", "C03"], file=PCV,
          old="            self._fit_feature_space(X, Y.reshape(Yhat.shape), Yhat)", new="            self._fit_feature_space(X, Y.reshape(Yhat.shape), Y.reshape(Yhat.shape))"),
 ]
+
+KPC = "src/skmatter/decomposition/_kernel_pcovr.py"
+MUTANTS += [
+    # ---------------------------------------------------------------- C05
+    dict(name="revert_fix_kpcovr_score_knn", prop="C05", file=KPC,
+         old="w.T @ K_NN @ w) / np.trace(K_VV)", new="w.T @ K_VV @ w) / np.trace(K_VV)"),
+    dict(name="revert_fix_kpcovr_score_centre", prop="C05", file=KPC,
+         old="            ) / self.centerer_.scale_\n            K_NN = self.centerer_.transform(K_NN)", new="            ) / self.centerer_.scale_\n            K_VV = self.centerer_.transform(self._get_kernel(X)) if K_VV.shape[0] == K_NN.shape[0] else K_VV\n            K_NN = self.centerer_.transform(K_NN)"),
+    dict(name="revert_fix_kpcovr_1d_precomputed", prop="C05", file=KPC,
+         old="            Yhat = Y.copy().reshape(X.shape[0], -1)", new="            Yhat = Y.copy()"),
+    dict(name="c05_predict_skips_centerer", prop="C05", file=KPC,
+         old="        if self.center:\n            K = self.centerer_.transform(K)\n\n        return K @ self.pky_", new="        return K @ self.pky_"),
+    dict(name="c05_gamma_not_forwarded", prop="C05", file=KPC,
+         old='            params = {"gamma": self.gamma, "degree": self.degree, "coef0": self.coef0}', new='            params = {"gamma": None, "degree": self.degree, "coef0": self.coef0}'),
+    dict(name="c05_pty_from_uncentred", prop="C05", file=KPC,
+         old="        self.ptk_ = self.pt__ @ K\n        self.pty_ = self.pt__ @ Y", new="        self.ptk_ = self.pt__ @ K\n        self.pty_ = self.pt__ @ (Y * (1.05 if self.center else 1.0))"),
+    dict(name="c05_P_mixing_dropped", prop="C05", file=KPC,
+         old="        P = (self.mixing * np.eye(K.shape[0])) + (1.0 - self.mixing) * (W @ Yhat.T)", new="        P = np.eye(K.shape[0]) + (1.0 - self.mixing) * (W @ Yhat.T)"),
+    dict(name="c05_transform_uses_fit_kernel_order", prop="C05", file=KPC,
+         old="        X = check_array(X)\n        K = self._get_kernel(X, self.X_fit_)\n\n        if self.center:\n            K = self.centerer_.transform(K)\n\n        return K @ self.pkt_",
+         new="        X = check_array(X)\n        K = self._get_kernel(X, self.X_fit_)\n\n        if self.center and K.shape[0] != 1:\n            K = self.centerer_.transform(K)\n\n        return K @ self.pkt_"),
+    dict(name="c05_score_krr_unrelative", prop="C05", file=KPC,
+         old="        Lkrr = np.linalg.norm(Y - y) ** 2 / np.linalg.norm(Y) ** 2", new="        Lkrr = np.linalg.norm(Y - y) ** 2 / np.linalg.norm(y) ** 2"),
+]
